@@ -264,6 +264,17 @@ Fixpoint client_guard (fuel : nat) (strat : list out -> option op) (a : astate) 
            end
   end.
 
-(* how many recorded cases lie inside the scope of C16_bisim (the proof guard holds along the whole run) *)
+(* starting states covered by C16_init: distinct addresses, no empty account, a native-only record
+   has a non-zero balance, stored storage words are non-zero with distinct slots *)
+Definition start_acct_okb (s : start_acct) : bool :=
+  if sa_native s then negb (sa_bal s =? 0)
+  else (negb (sa_nonce s =? 0) || negb (sa_bal s =? 0) || negb (sa_code s =? 0)%N) &&
+       forallb (fun kv : key * Z => negb (kv.2 =? 0)) (sa_stor s) && bool_decide (NoDup (sa_stor s).*1).
+Definition start_okb (st : list start_acct) : bool :=
+  forallb start_acct_okb st && bool_decide (NoDup (sa_addr <$> st)).
+Definition count_start_ok (cs : list case) : nat := length (filter (fun c => start_okb (c_start c) = true) cs).
+
+(* how many recorded cases lie inside the scope of C16_equivalence (admissible starting state and the
+   proof guard holds along the whole run) *)
 Definition count_pguarded (cs : list case) : nat :=
-  length (filter (fun c => pguardedb (a_init (c_start c)) (c_ops c) = true) cs).
+  length (filter (fun c => start_okb (c_start c) && pguardedb (a_init (c_start c)) (c_ops c) = true) cs).
